@@ -70,9 +70,18 @@ def full_repo(rng):
               'metadata/md5-cache'):
         ensure_dir(d)
     catdirs = sorted(n['p'] for n in nodes if n['t'] == 'd' and n['p'] in grepo.CATS)
+    listed = list(catdirs)
+    if rng.random() < 0.25:
+        # a category that is still listed and still has a metadata cache directory
+        # but no category directory any more
+        listed.append('sci-old')
+        ensure_dir('metadata/md5-cache/sci-old')
+        ensure_file('metadata/md5-cache/sci-old/gone-1.0', 'DEFINED_PHASES=-\n')
+    if rng.random() < 0.15:
+        listed.append('never-existed')
     nodes[:] = [n for n in nodes if n['p'] != 'profiles/categories']
     nodes.append({'p': 'profiles/categories', 't': 'f',
-                  'c': {'t': ''.join(c + '\n' for c in catdirs)}})
+                  'c': {'t': ''.join(c + '\n' for c in listed)}})
     ensure_file('eclass/base.eclass', '# eclass\n')
     ensure_file('licenses/GPL-2', 'text\n')
     ensure_file('metadata/dtd/x.dtd', '<!-- -->\n')
